@@ -124,8 +124,11 @@ def r2(ctx):
             ctx.violation("operand/Replace", ctx.where(GET_VALUE, a["body"]), "REPLACE(str, from, to) must be str.replace(arg0, arg1)")
     a = arms.get("Substring")
     if a:
-        r = " ".join(render(x) for x in walk_exprs(a["body"]) if x["k"] in ("Let", "Bin", "Assign"))
-        ok = "- 1" in r and "pos < 0" in r.replace("(", "").replace(")", "") and "function_args[0]" in r and "function_args.get(1)" in r.replace("&", "")
+        allr = " ".join(render(x) for x in walk_exprs(a["body"]))
+        flat = allr.replace("(", "").replace(")", "").replace("&", "")
+        one_based = "- 1" in allr or "saturating_sub1" in flat or "checked_sub1" in flat
+        first_arg = "function_args[0]" in allr or "function_args.first" in flat
+        ok = one_based and "pos < 0" in flat and first_arg and "function_args.get1" in flat
         ctx.obligation(ok)
         if not ok:
             ctx.violation("operand/Substring", ctx.where(GET_VALUE, a["body"]),
